@@ -170,6 +170,14 @@ def grid(tier):
                         if tier == "quick" and (sszx + cexp) % 2 and l1 not in (0, 17, 49) and l2 not in (17, 49):
                             continue
                         out.append((method, l1, l2, sszx, cexp, None, None, None))
+    # the client is limited to smaller blocks than the server picks for its first (unrequested) Block2 response
+    for method in ("GET", "PUT"):
+        for sszx in (6, 5, 3):
+            for cexp in range(0, sszx):
+                for l2 in ((1025, 2049, 3000) if sszx >= 5 else (129, 257, 400)):
+                    if tier == "quick" and cexp not in (0, sszx - 1, sszx // 2):
+                        continue
+                    out.append((method, 20 if method != "GET" else 0, l2, sszx, cexp, None, None, None))
     # a conforming server that states its own, larger, size preference in the 2.31s (from block k on) to a client limited to
     # smaller blocks: the client must carry on with its size
     for method in ("PUT", "POST"):
@@ -189,7 +197,7 @@ def grid(tier):
 
 
 MISBEHAVIOURS = ("b1-wrong-num", "b1-more-on-final", "b1-continue-on-final", "b2-short", "b2-etag", "b2-etag-dropped", "b2-skip", "b2-stale",
-                 "b2-more-past-end", "b2-408-midway", "b2-503-midway", "b2-plain-midway")
+                 "b2-more-past-end", "b2-408-midway", "b2-503-midway", "b2-plain-midway", "b2-empty")
 
 
 def misgrid(tier):
